@@ -179,3 +179,11 @@ SPECS = [
          native_patch=env.native_env, reset=_reset,
          desc="an established connection (0/1 requests served, 0..4 tracked resources incl. failing ones, a session instance) ends in one of 7 ways (cut at every byte offset 1..47, 40 arbitrary garbage bytes, ...), thread job and multiplex event path, raising disconnect hook, failing shutdown; a second connection stays open"),
 ]
+
+
+def EXTRA(tier, seed):
+    """the worker slot of an ended connection is released, also when the next connection arrives at that very moment (schedule BMC of the real Pool/Worker code, shared with C18)"""
+    from harness import C18_pool
+    cfgs = [(1, 1, 1, False, 32, True), (1, 1, 2, False, 44, True)] if tier == "quick" else \
+        [(1, 1, 1, False, 36, True), (1, 1, 2, False, 56, True), (1, 2, 2, False, 56, True)]
+    return C18_pool.pool_extra("C13", cfgs)
